@@ -507,12 +507,12 @@ CLAIMS = [
           "parse_list / parse_list_meta: a list ends only at its own closer (mismatch otherwise), `()` iff no element, "
           "a dotted tail needs a head element and a delimiter after the dot, trivia is skipped before the closer after "
           "the tail and that closer must be the list's own, `.name` reads a symbol",
-          "any number of elements (loop cut), both closers, arbitrary reader behaviour", configs=("fast",), also=("C12", "C13", "C19")),
+          "any number of elements (loop cut), both closers, arbitrary reader behaviour", configs=("fast",), also=("C12", "C13", "C19", "C01", "C02")),
     Claim("c08_vector_protocol", "C08", "quick", claim_vector_protocol,
           "parse_vector / parse_vector_meta: each step skips trivia first, a vector ends only at its own closer (mismatch "
           "otherwise), end of input is an EOF error, everything else is read as an element; end_seq skips trivia once, "
           "consumes exactly the construct's own closer, reports any other byte as trailing characters and end of input as EOF",
-          "any number of elements (loop cut), both closers, arbitrary reader behaviour", configs=("fast",), also=("C12", "C19", "C13")),
+          "any number of elements (loop cut), both closers, arbitrary reader behaviour", configs=("fast",), also=("C12", "C19", "C13", "C01", "C02")),
     Claim("c10_builder_lockstep", "C10", "quick", claim_lockstep,
           "for every behaviour of the reader and of the nested parser, parse_list_meta takes exactly the steps of "
           "parse_list and parse_vector_meta those of parse_vector (same trivia skips, same lookahead, same nested "
